@@ -465,29 +465,49 @@ func anyHashKeyCollision(vs ...px.Value) bool {
 	return false
 }
 
-// memberOrder: two types that differ only by the order (and, at equal number, the repetition) of the members of a
-// Variant / the values of an Enum somewhere
-func memberOrder(a, b sx.Sexp) bool {
-	return a.String() != b.String() && sortedMembers(a).String() == sortedMembers(b).String()
+// typeSexps: the type expressions that occur as values in the tree
+func typeSexps(e sx.Sexp, out *[]sx.Sexp) {
+	if e.Tag() == "t" {
+		*out = append(*out, e.Args()[0])
+		return
+	}
+	for _, k := range e.List {
+		if k.IsList {
+			typeSexps(k, out)
+		}
+	}
 }
 
-func sortedMembers(e sx.Sexp) sx.Sexp {
+// canonType: the type expression with everything `Equals` does not look at normalised away: the members of a Variant /
+// the values of an Enum as a sorted set plus their number, the implied size of a Tuple written out, a one-member
+// Variant replaced by the member
+func canonType(e sx.Sexp) sx.Sexp {
 	if !e.IsList {
 		return e
 	}
 	xs := make([]sx.Sexp, len(e.List))
 	for i, k := range e.List {
-		xs[i] = sortedMembers(k)
+		xs[i] = canonType(k)
 	}
 	from := -1
 	switch e.Tag() {
 	case "var":
+		if len(xs) == 2 {
+			return xs[1]
+		}
 		from = 1
 	case "enum":
 		from = 2
+		if len(xs) == 2 {
+			xs[1] = sx.A("f") // NewEnumType: no values → the default Enum
+		}
+	case "tup":
+		if len(xs) == 2 {
+			n := sx.Int(int64(len(xs[1].List)))
+			xs = append(xs, n, n)
+		}
 	}
 	if from > 0 && len(xs) > from {
-		// Equals looks at the members as a set (plus their number): sort, drop repetitions, keep the count
 		rest := xs[from:]
 		for i := 1; i < len(rest); i++ {
 			for j := i; j > 0 && rest[j-1].String() > rest[j].String(); j-- {
@@ -503,6 +523,29 @@ func sortedMembers(e sx.Sexp) sx.Sexp {
 		xs = append(uniq, sx.A(fmt.Sprintf("#%d", len(rest))))
 	}
 	return sx.Sexp{List: xs, IsList: true}
+}
+
+// memberOrder: among the operands there are two types that are the same up to the order / repetition of Variant members
+// or Enum values and yet have different keys — the negation of the theorem hypothesis `TypeKeysAgree` restricted to its
+// known cause (known finding C07-type-member-order)
+func memberOrder(es ...sx.Sexp) bool {
+	var ts []sx.Sexp
+	for _, e := range es {
+		typeSexps(e, &ts)
+	}
+	for i := range ts {
+		for j := i + 1; j < len(ts); j++ {
+			if ts[i].String() == ts[j].String() || canonType(ts[i]).String() != canonType(ts[j]).String() {
+				continue
+			}
+			ki, oi := keyOf(typeOf(ts[i]))
+			kj, oj := keyOf(typeOf(ts[j]))
+			if strings.HasPrefix(oi, "x") && strings.HasPrefix(oj, "x") && ki != kj {
+				return true
+			}
+		}
+	}
+	return false
 }
 
 func hasType(e sx.Sexp) bool {
@@ -546,7 +589,7 @@ func pairFail(out, law, detail string, ex, ey sx.Sexp, x, y px.Value) core.Resul
 	switch {
 	case law == "key-equal-for-unequal" && topCollide(x, y), anyHashKeyCollision(x, y):
 		class = "raw-string-key"
-	case law == "key-differs-for-equal" && hasType(ex) && hasType(ey) && memberOrder(ex, ey):
+	case law == "key-differs-for-equal" && memberOrder(ex, ey):
 		class = "type-member-order"
 	}
 	return core.Fail(out, class, law+": "+detail)
@@ -704,12 +747,7 @@ func exec(c px.Context, op string, args []sx.Sexp) core.Result {
 		if fail != "" {
 			class := "get-wrong"
 			raw := anyHashKeyCollision(h, k)
-			order := false
-			for _, kv := range args[0].Args() {
-				if hasType(kv.List[0]) && memberOrder(kv.List[0], args[1]) {
-					order = true
-				}
-			}
+			order := memberOrder(args[0], args[1])
 			h.EachPair(func(ek, ev px.Value) {
 				if topCollide(ek, k) {
 					raw = true
@@ -787,7 +825,7 @@ func exec(c px.Context, op string, args []sx.Sexp) core.Result {
 			}
 			if raw {
 				class = "raw-string-key"
-			} else if hasType(args[0]) && orderOnlyDup(args[0]) && strings.HasPrefix(fail, "kept apart") {
+			} else if memberOrder(args[0]) && strings.HasPrefix(fail, "kept apart") {
 				class = "type-member-order"
 			}
 			return core.Fail(out, class, fail)
@@ -883,19 +921,6 @@ var typeExprs = []string{
 	"Callable[0,0]", "Runtime", "Runtime['go','x']", "Runtime['go','y']", "Init", "Init[String]", "Like", "TypeReference['Foo']", "TypeReference['Bar']",
 	"Object", "Object[{name=>'A',attributes=>{a=>Integer}}]", "Object[{name=>'A',attributes=>{a=>String}}]", "Object[{name=>'B',attributes=>{a=>Integer}}]",
 	"TypeSet", "Deferred",
-}
-
-// orderOnlyDup: two elements of the array are types differing only by Variant/Enum member order
-func orderOnlyDup(e sx.Sexp) bool {
-	a := e.Args()
-	for i := range a {
-		for j := i + 1; j < len(a); j++ {
-			if memberOrder(a[i], a[j]) {
-				return true
-			}
-		}
-	}
-	return false
 }
 
 // ---- generators ------------------------------------------------------------------------------------------------
@@ -1288,6 +1313,108 @@ func mutate(r *rand.Rand, e sx.Sexp) sx.Sexp {
 	return mk("(u)")
 }
 
+// equalVariant: another spelling of an Equal value — entry ↔ two-element array, permuted hash, hash ↔ builder, 0.0 ↔ -0.0,
+// a Tuple with its implied size written out, permuted Variant/Enum members — applied at random depths
+func equalVariant(r *rand.Rand, e sx.Sexp) sx.Sexp {
+	a := e.Args()
+	rec := func(xs []sx.Sexp) []sx.Sexp {
+		out := make([]sx.Sexp, len(xs))
+		for i, x := range xs {
+			out[i] = x
+			if r.Intn(2) == 0 {
+				out[i] = equalVariant(r, x)
+			}
+		}
+		return out
+	}
+	switch e.Tag() {
+	case "a":
+		xs := rec(a)
+		if len(xs) == 2 && r.Intn(2) == 0 {
+			return sx.T("e", xs...)
+		}
+		return sx.T("a", xs...)
+	case "e":
+		xs := rec(a)
+		if r.Intn(2) == 0 {
+			return sx.T("a", xs...)
+		}
+		return sx.T("e", xs...)
+	case "h", "mh":
+		xs := make([]sx.Sexp, len(a))
+		for i, kv := range a {
+			kv2 := rec(kv.List)
+			xs[i] = sx.L(kv2[0], kv2[1])
+		}
+		r.Shuffle(len(xs), func(i, j int) { xs[i], xs[j] = xs[j], xs[i] })
+		tag := "h"
+		if r.Intn(4) == 0 && hashKeysKeyable(e) && !dupSexpKeys(xs) {
+			tag = "mh"
+		}
+		return sx.T(tag, xs...)
+	case "f":
+		b := u64(a[0])
+		if b == 0 || b == 1<<63 {
+			return sx.T("f", sx.A(strconv.FormatUint(b^(1<<63), 10)))
+		}
+	case "t":
+		return sx.T("t", equalType(r, a[0]))
+	}
+	return e
+}
+
+func dupSexpKeys(kvs []sx.Sexp) bool {
+	seen := map[string]bool{}
+	for _, kv := range kvs {
+		k := kv.List[0].String()
+		if seen[k] {
+			return true
+		}
+		seen[k] = true
+	}
+	return false
+}
+
+func equalType(r *rand.Rand, t sx.Sexp) sx.Sexp {
+	a := t.Args()
+	switch t.Tag() {
+	case "var", "enum":
+		from := 0
+		if t.Tag() == "enum" {
+			from = 1
+		}
+		xs := append([]sx.Sexp{}, a...)
+		if t.Tag() == "var" {
+			for i := range xs {
+				xs[i] = equalType(r, xs[i])
+			}
+		}
+		if r.Intn(3) == 0 {
+			rest := xs[from:]
+			r.Shuffle(len(rest), func(i, j int) { rest[i], rest[j] = rest[j], rest[i] })
+		}
+		return sx.T(t.Tag(), xs...)
+	case "tup":
+		ts := make([]sx.Sexp, len(a[0].List))
+		for i, m := range a[0].List {
+			ts[i] = equalType(r, m)
+		}
+		n := int64(len(ts))
+		if len(a) == 1 && r.Intn(2) == 0 {
+			return sx.T("tup", sx.L(ts...), sx.Int(n), sx.Int(n))
+		}
+		if len(a) == 3 && a[1].MustInt() == n && a[2].MustInt() == n && r.Intn(2) == 0 {
+			return sx.T("tup", sx.L(ts...))
+		}
+		return sx.T("tup", append([]sx.Sexp{sx.L(ts...)}, a[1:]...)...)
+	case "arr":
+		return sx.T("arr", equalType(r, a[0]), a[1], a[2])
+	case "opt", "typ":
+		return sx.T(t.Tag(), equalType(r, a[0]))
+	}
+	return t
+}
+
 func mutType(r *rand.Rand, t sx.Sexp) sx.Sexp {
 	a := t.Args()
 	switch t.Tag() {
@@ -1421,6 +1548,19 @@ func gen(g *core.G) {
 				z = x
 			}
 			g.Emit("eq3 " + x.String() + " " + y.String() + " " + z.String())
+		}
+		if i%3 == 1 {
+			// a chain of Equal spellings (transitivity with true premises), sometimes broken by a mutation at the end
+			x2 := randVal(r, 2+r.Intn(2))
+			y2 := equalVariant(r, x2)
+			z2 := equalVariant(r, y2)
+			if r.Intn(4) == 0 {
+				z2 = mutate(r, z2)
+			}
+			g.Emit("eq3 " + x2.String() + " " + y2.String() + " " + z2.String())
+			g.Emit("eq " + x2.String() + " " + z2.String())
+			g.Emit("unique " + av(x2, y2, z2).String())
+			g.Emit("get " + hv(y2, iv(1)).String() + " " + z2.String())
 		}
 		if i%2 == 0 {
 			// a list with related members: x, its mutation, copies, and the key image of one of them
